@@ -150,7 +150,9 @@ class C05(core.Prop):
     theorems = ['TddaVerif.Props.C05.' + t for t in [
         'typesMatch_iff', 'typesMatch_refl', 'typesMatch_symm', 'typesMatch_strict_to_medium',
         'typesMatch_medium_to_permissive', 'check_iff_agree', 'copy_passes', 'rowcount_fails', 'missing_column_fails',
-        'extra_column_fails', 'wrong_type_fails', 'wrong_order_fails', 'value_difference_fails', 'swap_changes_order']]
+        'extra_column_fails', 'wrong_type_fails', 'wrong_order_fails', 'value_difference_fails', 'swap_changes_order',
+        'roundTo_close', 'roundTo_grid', 'far_apart_differ', 'cellsEqual_far', 'cellsEqual_refl', 'cellsEqual_null',
+        'cellsEqual_symm', 'cellsEqual_near_grid']]
     quick_n = 400
     thorough_n = 12000
     rule = ('cases: a reference frame of 1..4 columns x 0..6 rows over 15 dtype families with nulls, and an actual frame '
@@ -166,8 +168,10 @@ class C05(core.Prop):
         'PandasComparison are spied on by subclassing; nothing in /repo is instrumented)',
         'sortby and condition are not modelled (row selection happens before the row count / value comparison; the oracle '
         'exercises them for internal errors and for the copy / mutation clauses)',
-        'DataFrame.equals / round / sort_values, parquet and CSV readers are not modelled: value equality enters the '
-        'model as a parameter; the oracle recomputes it cell by cell',
+        'DataFrame.equals / sort_values, parquet and CSV readers are not modelled: value equality of whole columns enters the '
+        'verdict model as a parameter; the oracle recomputes it cell by cell. Rounding of one numeric cell (numpy.round: half to '
+        'even of x * 10^p, divided by 10^p) is modelled on exact rationals (Model/Round.lean) and tied to DataFrame.round on '
+        'dyadic values, ties included, for precisions 0..3 (where binary floating point is exact)',
     ]
 
     def corpus(self):
